@@ -366,8 +366,8 @@ fn amplification_step_at(start_pending: bool, k: u8, fixed_t: Option<u64>) {
         recv += 1472;
         assert!(class_of(&s, A) == 1);
     }
-    let left0: usize = if start_pending { 10 } else { 0 };
-    let phi0 = recv as isize - s.socket.sent_bytes() as isize - 25 * left0 as isize;
+    let mut left0: usize = if start_pending { 10 } else { 0 };
+    let mut phi0 = recv as isize - s.socket.sent_bytes() as isize - 25 * left0 as isize;
     if start_pending { assert!(phi0 >= 1472 - 25 - 250, "[C18] replies to a first SYN stay far below its size, resends included"); }
     // the time of the step is symbolic except in the timer shapes, where it decides a heap-modifying branch (DESIGN.md 10.8)
     let t = match fixed_t { Some(x) => x, None => any_time() };
@@ -385,7 +385,24 @@ fn amplification_step_at(start_pending: bool, k: u8, fixed_t: Option<u64>) {
         6 => { s.handle_frame(addr(A), frame::Frame::DataFrame(frame::DataFrame { sequence_id: kani::any(), nonce: kani::any(), datagrams: Vec::new() }), t); 10 }
         7 => { s.handle_frame(addr(A), frame::Frame::SyncFrame(frame::SyncFrame { next_frame_id: None, next_packet_id: None }), t); 14 }
         8 => { s.handle_frame(addr(A), frame::Frame::AckFrame(frame::AckFrame { frame_window_base_id: kani::any(), packet_window_base_id: kani::any(), frame_acks: Vec::new() }), t); 15 }
-        _ => { s.handle_events(t); 0 }
+        _ => {
+            // one firing of the pending address's resend timer
+            let mut ev = s.client_events.pop().unwrap();
+            assert!(ev.kind == event_queue::EventType::ResendHandshakeSynAck && ev.count == 10 && ev.time == 2000, "[C18] an accepted SYN arms 10 resends, 2 s apart");
+            let c: u8 = kani::any();
+            kani::assume(c <= 10);
+            ev.count = c;
+            left0 = c as usize;
+            phi0 = recv as isize - s.socket.sent_bytes() as isize - 25 * left0 as isize;
+            s.handle_event(ev, t);
+            if c > 0 {
+                let again = s.client_events.peek().unwrap();
+                assert!(again.count == c - 1 && again.time > t, "[C18] re-armed strictly in the future with one resend less");
+            } else {
+                assert!(s.client_events.peek().is_none() && class_of(&s, A) == 0, "[C18] after the last resend the address is forgotten");
+            }
+            0
+        }
     };
     recv += got;
     let sent_now = s.socket.sent_bytes() - sent0;
@@ -420,39 +437,21 @@ macro_rules! amp {
 //@bound address A untracked; ONE SYN with every field any (compatible, wrong version, incompatible limits): replies are 25 or 10 bytes against 1472 received
 //@assume VecMap; opaque connection model; socket model; nonce source any; crc stubbed; pointer checks off; received bytes counted at the exact wire size of each frame type (codec obligations)
 amp!(o18_1_untracked_syn, false, 0);
-//@h props=C18 tier=quick timeout=1500 role=server-amplification args=--no-memory-safety-checks
+//@h props=C18 tier=quick timeout=1500 role=server-amplification args=--no-memory-safety-checks cbmc=--max-field-sensitivity-array-size+512
 //@fn Server::{handle_frame, handle_handshake_syn}
 //@bound address A pending (entry created by the code); a second SYN with every field any
 //@assume as o18_1_untracked_syn
 amp!(o18_1_pending_repeated_syn, true, 0);
-//@h props=C18 tier=quick timeout=1500 role=server-amplification args=--no-memory-safety-checks
+//@h props=C18 tier=quick timeout=1500 role=server-amplification args=--no-memory-safety-checks cbmc=--max-field-sensitivity-array-size+512
 //@fn Server::{handle_frame, handle_handshake_ack}
 //@bound address A pending; a handshake ACK with ANY wrong nonce
 //@assume as o18_1_untracked_syn
 amp!(o18_1_pending_wrong_ack, true, 2);
-macro_rules! amp_at {
-    ($name:ident, $t:expr) => {
-        #[kani::proof]
-        #[kani::unwind(6)]
-        #[kani::stub(crate::frame::serial::crc::compute, crate::frame::serial::verif_codec::crc_stub)]
-        fn $name() { amplification_step_at(true, 9, Some($t)); }
-    };
-}
 //@h props=C18 tier=quick timeout=1500 role=server-amplification args=--no-memory-safety-checks
-//@fn Server::{handle_events, handle_event}
-//@bound address A pending (SYN handled at time 0, first resend due at 2000 ms); ONE timer evaluation at 1999 ms (nothing due)
-//@assume as o18_1_untracked_syn; the evaluation time is a concrete shape because it decides a heap-modifying branch
-amp_at!(o18_1_pending_timer_not_due, 1999);
-//@h props=C18 tier=quick timeout=1500 role=server-amplification args=--no-memory-safety-checks
-//@fn Server::{handle_events, handle_event}
-//@bound address A pending; ONE timer evaluation at exactly 2000 ms (the resend is due)
-//@assume as o18_1_pending_timer_not_due
-amp_at!(o18_1_pending_timer_due, 2000);
-//@h props=C18 tier=thorough timeout=1500 role=server-amplification args=--no-memory-safety-checks
-//@fn Server::{handle_events, handle_event}
-//@bound address A pending; ONE timer evaluation at 2^39 ms (long overdue: still one resend per evaluation)
-//@assume as o18_1_pending_timer_not_due
-amp_at!(o18_1_pending_timer_overdue, 1 << 39);
+//@fn Server::handle_event (the body of the timer loop of handle_events)
+//@bound address A pending (entry created by the code); its SYN-ACK resend timer entry is taken from the timer queue and handed to handle_event with ANY remaining count <= 10 at ANY time < 2^40: at most one 25-byte resend, the count decreases, the entry is re-armed strictly in the future (so the loop of handle_events cannot fire it again in the same evaluation) or the address is forgotten
+//@assume as o18_1_untracked_syn; the two-line loop of handle_events (peek; break if not due; pop; handle_event) is modelled by the obligation popping the entry itself: running a due entry through the real loop makes CBMC run out of memory even for fully concrete inputs (DESIGN.md 10.8)
+amp!(o18_1_pending_timer, true, 9);
 //@h props=C18 tier=thorough timeout=1500 role=server-amplification args=--no-memory-safety-checks
 //@fn Server::handle_frame (stray frame types)
 //@bound address A pending; a Disconnect frame
@@ -653,5 +652,32 @@ fn o10_4_server_step_reads_waiting_frames_before_timers() {
     }
     kani::cover!(now >= deadline, "the deadline had passed when step() was called");
     std::mem::forget(rc);
+    std::mem::forget(s);
+}
+
+// ---- C17: a handshake that times out gives its slot back, whatever enable_handshake_errors says ---------
+//@h props=C17,C10,C18 tier=quick timeout=1500 role=server-limits-handshake-timeout args=--no-memory-safety-checks
+//@fn Server::{handle_frame, handle_handshake_syn, handle_event}
+//@bound limits (1,1), enable_handshake_errors any; SYN from A (compatible); its resend timer entry is handed to handle_event with no resends left at any time; then a SYN from B
+//@assume as o7_1_server_syn_reply; the timer loop of handle_events is modelled by the obligation popping the entry (see o18_1_pending_timer)
+#[kani::proof]
+#[kani::unwind(6)]
+#[kani::stub(crate::frame::serial::crc::compute, crate::frame::serial::verif_codec::crc_stub)]
+fn o17_1_timed_out_handshake_frees_its_slot() {
+    let cfg = EndpointConfig::default();
+    let mut s = mk_server(1, 1, cfg.clone());
+    s.handle_frame(addr(A), frame::Frame::HandshakeSynFrame(ok_syn()), 0);
+    assert!(class_of(&s, A) == 1 && s.clients.len() == 1);
+    let mut ev = s.client_events.pop().unwrap();
+    ev.count = 0;
+    let t = any_time();
+    s.handle_event(ev, t);
+    assert!(class_of(&s, A) == 0 && s.clients.len() == 0, "[C17,C10] a handshake that used up its retry budget is forgotten: the slot no longer counts against max_total_connections");
+    let (_, _, _, e) = count_events(&s, A);
+    assert!(e == s.config.enable_handshake_errors as usize, "[C10] Error(Timeout) is reported exactly when handshake errors are enabled");
+    let sent0 = s.socket.sent_n();
+    s.handle_frame(addr(B), frame::Frame::HandshakeSynFrame(ok_syn()), t);
+    assert!(class_of(&s, B) == 1, "[C17] a new handshake is accepted once the timed-out one is gone");
+    assert!(s.socket.sent_n() == sent0 + 1 && s.socket.sent(sent0).len == 25 && s.socket.sent(sent0).head[0] == 1, "[C17] SYN-ACK, not ServerFull");
     std::mem::forget(s);
 }
